@@ -208,7 +208,9 @@ def check_request(cap: dict, x: dict, base_path: str = "/base") -> list:
             probs.append(("extra:body", f"body sent though the operation declares none: {content[:60]!r}"))
     else:
         bt = b["body_type"]
-        if bt == "files":
+        if bt == "files" and not b["parts"]:
+            pass  # a multipart body without any part has nothing to transmit
+        elif bt == "files":
             if not ctype or not ctype.startswith("multipart/form-data; boundary="):
                 probs.append(("content_type:multipart", f"Content-Type {ctype!r} for a multipart body"))
             else:
